@@ -97,11 +97,12 @@ def main():
                 dropped += 1      # ambiguous on today's tree (same guard text used twice ...): not recorded
                 continue
             refusals.append(r)
-        if not defaults and not refusals:
+        kwo = contract.kw_options_of(fi)
+        if not defaults and not refusals and not kwo:
             continue
         if key in functions:       # duplicate key (two overloads with equal annotation): keep the first, skip
             continue
-        functions[key] = dict(owners=sorted(owners), defaults=defaults, refusals=refusals)
+        functions[key] = dict(owners=sorted(owners), defaults=defaults, refusals=refusals, kw_options=kwo)
     head = subprocess.run(["git", "-C", "/repo", "rev-parse", "--short", "HEAD"], capture_output=True, text=True).stdout.strip()
     # every function some property's rules consulted on this tree (used to tell a NEW override from a known, analysed one)
     import importlib
@@ -120,7 +121,8 @@ def main():
     for v in functions.values():
         for p in v["owners"]:
             byp[p] = byp.get(p, 0) + 1
-    print(f"{len(functions)} functions, {nd} defaults, {nr} refusals recorded ({dropped} ambiguous refusals not recorded)")
+    nk = sum(len(v.get("kw_options", {})) for v in functions.values())
+    print(f"{len(functions)} functions, {nd} defaults, {nk} keyword options, {nr} refusals recorded ({dropped} ambiguous refusals not recorded)")
     print(sorted(byp.items()))
 
 
